@@ -617,6 +617,9 @@ func runC13(c *Ctx) {
 	// ---- R13d error propagation in the output paths
 	for _, spec := range []string{"lib/binpatch.(*PatchSet).applyRewrite", "lib/binpatch.(*PatchSet).Apply", "lib/atomicfile.WriteInPlace", "lib/atomicfile.WriteFile", "signers.(fileProducer).Apply", "signers.ApplyBinPatch"} {
 		fn := p.Func(spec)
+		if fn == nil && spec == "lib/binpatch.(*PatchSet).applyRewrite" {
+			fn = binpatchRewriteFn(p)
+		}
 		if fn == nil {
 			spec2 := spec
 			c.Undecided(rd, spec2, "-", "function not found")
@@ -631,6 +634,9 @@ func runC13(c *Ctx) {
 					continue
 				}
 				name := p.calleeName(ci.Common())
+				if rwf := binpatchRewriteFn(p); rwf != nil && ci.Common().StaticCallee() == rwf {
+					name = "(*lib/binpatch.PatchSet).applyRewrite"
+				}
 				switch name {
 				case "io.Copy", "io.CopyN", "(*os.File).Seek", "(*os.File).WriteAt", "(*os.File).Truncate", "(io.Writer).Write", "(io.Seeker).Seek",
 					"(lib/atomicfile.AtomicFile).Commit", "lib/binpatch.Load", "(*lib/binpatch.PatchSet).Apply", "io/ioutil.ReadAll", "io.ReadAll", "(*lib/binpatch.PatchSet).applyRewrite":
